@@ -1,17 +1,16 @@
 SPECIFICATION Spec
 CONSTANTS
-  Family = "adp"
-  Targets = {"eam_adp"}
+  Family = "eam"
+  Targets = {"setfl","DL_POLY_EAM","excel_eam"}
   MaxSp = 2
   MaxPots = 0
   NRs = {3}
   NRhos = {2}
-  Faults = FALSE
-  FlushFixed = TRUE
+  Faults = TRUE
+  FlushFixed = FALSE
 INVARIANT TypeOK
 INVARIANT NoStuck
-INVARIANT C03_ElementsOnce
-INVARIANT C03_ReaderSeesModel
-INVARIANT C19_Adp
+INVARIANT C17_AllOrNothing
+INVARIANT C17_WholeOrNothing
 INVARIANT C17_DoneMeansWhole
 INVARIANT C17_NoFaultNoRaise
